@@ -21,8 +21,89 @@ IDENTS = ['a', 'bb', 'c_1', '_d', 'E']
 SCOPES = ['s1', 's2', 'sc_3']
 
 
+def ref_text(rng):
+  if rng.random() < 0.7:
+    name = '/'.join([rng.choice(SCOPES) for _ in range(rng.choice([0, 0, 1, 2]))] + ['.'.join(rng.sample(IDENTS, rng.choice([1, 1, 2])))])
+    return '@' + name + rng.choice(['', '', '()', '()', '( )', '(\n)'])
+  return '%' + '/'.join([rng.choice(SCOPES) for _ in range(rng.choice([0, 0, 1]))] + [rng.choice(IDENTS)])
+
+
+def plant_refs(rng, t):
+  """replace some non-key atoms of a literal tree by references / macros (atoms spelled '@...' / '%...')"""
+  k = t[0]
+  if k == 'atom':
+    return ('atom', ref_text(rng)) if rng.random() < 0.5 else t
+  if k == 'paren':
+    return ('paren', plant_refs(rng, t[1]))
+  if k == 'dict':
+    return ('dict', [(kk, plant_refs(rng, v)) for kk, v in t[1]])
+  return (k, [plant_refs(rng, x) for x in t[1]])
+
+
+def is_ref_atom(a):
+  return isinstance(a, str) and a[:1] in ('@', '%')
+
+
+def has_ref(t):
+  k = t[0]
+  if k == 'atom':
+    return is_ref_atom(t[1])
+  if k == 'paren':
+    return has_ref(t[1])
+  if k == 'dict':
+    return any(has_ref(v) for _, v in t[1])
+  return any(has_ref(x) for x in t[1])
+
+
+def ref_obs(a):
+  if a[0] == '%':
+    return T('Macro', a[1:])
+  body = a[1:]
+  ev = '(' in body
+  return T('Ref', body.split('(')[0], ev)
+
+
+def mixed_expected(t):
+  """the value a container holding references spells: literal_eval of the tree with each reference replaced
+  by a unique string, the strings then replaced by the reference they stand for"""
+  import random
+  table = {}
+
+  def sub(t):
+    k = t[0]
+    if k == 'atom':
+      if is_ref_atom(t[1]):
+        key = 'REFPLACEHOLDER%d' % len(table)
+        table[key] = ref_obs(t[1])
+        return ('atom', repr(key))
+      return t
+    if k == 'paren':
+      return ('paren', sub(t[1]))
+    if k == 'dict':
+      return ('dict', [(kk, sub(v)) for kk, v in t[1]])
+    return (k, [sub(x) for x in t[1]])
+  v = P.lit_eval(c02.render(random.Random(0), sub(t)))
+  if v is None:
+    return None
+
+  def back(x):
+    if isinstance(x, T):
+      if x.tag == 'str' and x.args and x.args[0] in table:
+        return table[x.args[0]]
+      return T(x.tag, *[back(a) for a in x.args])
+    if isinstance(x, list):
+      return [back(a) for a in x]
+    return x
+  return back(v)
+
+
 def gen_value(rng):
   r = rng.random()
+  if r < 0.15:
+    for _ in range(20):
+      t = plant_refs(rng, c02.gen_tree(rng, rng.choice([1, 1, 2])))
+      if t[0] != 'atom' and has_ref(t) and mixed_expected(t) is not None:
+        return ['mixed', t]
   if r < 0.6:
     import random
     for _ in range(20):
@@ -37,7 +118,7 @@ def gen_value(rng):
 
 
 def render_value(rng, v):
-  if v[0] == 'lit':
+  if v[0] in ('lit', 'mixed'):
     return c02.render(rng, tuple_tree(v[1]))
   if v[0] == 'ref':
     return '@' + v[1] + (rng.choice(['()', '( )', '(\n)']) if v[2] else '')
@@ -58,6 +139,8 @@ def tuple_tree(t):
 
 
 def expected_value(v):
+  if v[0] == 'mixed':
+    return mixed_expected(tuple_tree(v[1]))
   if v[0] == 'lit':
     import random
     return P.lit_eval(c02.render(random.Random(0), tuple_tree(v[1])))
